@@ -46,6 +46,27 @@ pub struct Plan {
     /// 0 include all, 1 allow-list [shared, user], 2 custom (drops span labels whose value starts with 'x', and all for metric "m_skip")
     pub filter: u8,
     pub threads: Vec<Vec<Op>>,
+    /// shape of the subscriber stack: 0 = Registry + MetricsLayer, 1 = Registry + a do-nothing
+    /// layer + MetricsLayer (a different subscriber type; a worker process sees both over its life)
+    #[serde(default)]
+    pub stack: u8,
+    /// the threads with an odd index run under a second dispatcher (their own subscriber, of the
+    /// other shape) while sharing the one recorder: a long-lived recorder used under several
+    /// dispatchers
+    #[serde(default)]
+    pub second_dispatch: bool,
+}
+
+/// a layer that does nothing (it only changes the subscriber's type)
+struct Idle;
+impl<S: tracing::Subscriber> tracing_subscriber::Layer<S> for Idle {}
+
+fn make_dispatch(shape: u8) -> Dispatch {
+    if shape % 2 == 0 {
+        Dispatch::new(tracing_subscriber::registry().with(MetricsLayer::new()))
+    } else {
+        Dispatch::new(tracing_subscriber::registry().with(Idle).with(MetricsLayer::new()))
+    }
 }
 
 /// A field value whose formatting passes a scheduling point: the layer formats recorded values
@@ -157,7 +178,7 @@ impl Scenario for C17Tracing {
             })
             .collect();
         let shared_span = if r.chance(300) { Some((r.range(1, 4) as u32, r.range(1, 3) as u32)) } else { None };
-        Plan { shared_span, filter: if r.chance(150) { 3 } else { r.below(3) as u8 }, threads }
+        Plan { shared_span, filter: if r.chance(150) { 3 } else { r.below(3) as u8 }, threads, stack: if r.chance(250) { 1 } else { 0 }, second_dispatch: r.chance(200) }
     }
     fn execute(&self, plan: &Plan, sched: &SchedSpec) -> RunReport {
         let log = new_log();
@@ -165,8 +186,8 @@ impl Scenario for C17Tracing {
         let p = plan.clone();
         let (l2, e2) = (log.clone(), errors.clone());
         let sim = simulate(sched, 100_000, move || {
-            let subscriber = tracing_subscriber::registry().with(MetricsLayer::new());
-            let dispatch = Dispatch::new(subscriber);
+            let dispatch = make_dispatch(p.stack);
+            let dispatch2 = if p.second_dispatch { make_dispatch(p.stack + 1) } else { dispatch.clone() };
             let shared = Shared::new(l2.clone());
             let double = LogRecorder::new(0, shared);
             let rec: Arc<dyn Recorder + Send + Sync> = match p.filter {
@@ -178,7 +199,7 @@ impl Scenario for C17Tracing {
             let mut hs = vec![];
             for (ti, ops) in p.threads.iter().enumerate() {
                 let ops = ops.clone();
-                let dispatch = dispatch.clone();
+                let dispatch = if ti % 2 == 1 { dispatch2.clone() } else { dispatch.clone() };
                 let rec = rec.clone();
                 let (log, errors) = (l2.clone(), e2.clone());
                 let filter = p.filter;
